@@ -27,7 +27,7 @@ Three models, tied to the code by harness/props/c06.py:
   calling again (on what the first call left behind) gives the same result.  Grid and Stokes vector
   are heap objects of their own (`viewProg`, `safeAttr`, `safe_sound_attr`): several wavefronts may
   point to one grid, and an in-place update through any of them is rejected
-  (`scaleSharedGridOld_*`, `copy_shares_grid_unsafe`, `stokesInplaceOld_*`).  Every shipped effect
+  (`scaleSharedGridOld_*`, `copy_shares_grid_rejected`, `stokesInplaceOld_*`).  Every shipped effect
   program is accepted on all three heaps (`shipped_programs_safeAll`), the programs with a loop
   over scales / layers for every number of rounds (`shipped_loop_programs_safeAll`); the pinned tree's
   `VectorVortexCoronagraph.backward` is rejected and provably leaves `wavelength = 1`
@@ -410,7 +410,7 @@ example : safeAll magnifier = true := by decide
 shares the caller's grid object, rescaled in place.  The field-array checker accepts the program … -/
 theorem scaleSharedGridOld_field_safe : safe scaleSharedGridOld = true := by decide
 /-- … the grid view is rejected … -/
-theorem scaleSharedGridOld_unsafe : safeAttr .grid scaleSharedGridOld = false := by decide
+theorem scaleSharedGridOld_rejected : safeAttr .grid scaleSharedGridOld = false := by decide
 /-- … and the caller's grid is indeed rewritten. -/
 theorem scaleSharedGridOld_rewrites_grid (sem : Nat → List Int → Int) (v : InVal) (g : Int) :
     attrContentsAfter sem .grid scaleSharedGridOld v g = some (sem opMul [g]) := by
@@ -418,12 +418,12 @@ theorem scaleSharedGridOld_rewrites_grid (sem : Nat → List Int → Int) (v : I
 
 /-- `wavefront.copy()` does **not** help: the copy points to the same grid object
 (`Field.__array_finalize__`), so rescaling the copy's grid in place is rejected as well … -/
-theorem copy_shares_grid_unsafe : safeAttr .grid ⟨[.copy 1 0, .inplaceAttr opMul 1 .grid], 1⟩ = false := by decide
+theorem copy_shares_grid_rejected : safeAttr .grid ⟨[.copy 1 0, .inplaceAttr opMul 1 .grid], 1⟩ = false := by decide
 /-- … what `Magnifier` does — re-point the copy to a *copy of the grid* first (`grid.scaled`) — is accepted. -/
 example : safeAttr .grid ⟨[.copy 1 0, .copyAttr 1 .grid, .inplaceAttr opMul 1 .grid], 1⟩ = true := by decide
 
 /-- In-place arithmetic on the argument's Stokes vector: rejected, and the vector is rewritten. -/
-theorem stokesInplaceOld_unsafe : safeAttr .stokes stokesInplaceOld = false := by decide
+theorem stokesInplaceOld_rejected : safeAttr .stokes stokesInplaceOld = false := by decide
 theorem stokesInplaceOld_rewrites_stokes (sem : Nat → List Int → Int) (v : InVal) (st : Int) :
     attrContentsAfter sem .stokes stokesInplaceOld v st = some (sem opMul [st]) := by
   simp [attrContentsAfter, viewProg, viewList, viewInstr, stokesInplaceOld, call, exec, step, init, upd, bufOf, contents, InVal.obj]
@@ -463,7 +463,7 @@ working name to the argument at the end of the round is accepted with one round 
 (the second round multiplies the caller's field in place). -/
 theorem rebinding_loop_one_round_safe :
     safe (LoopProg.unroll ⟨[.copy 1 0], [.inplace opMul 1 [], .bind 1 0], [], 1⟩ 1) = true := by decide
-theorem rebinding_loop_two_rounds_unsafe :
+theorem rebinding_loop_two_rounds_rejected :
     safe (LoopProg.unroll ⟨[.copy 1 0], [.inplace opMul 1 [], .bind 1 0], [], 1⟩ 2) = false := by decide
 
 /-- The checker is not vacuous: dropping the copy before an in-place multiply is rejected … -/
